@@ -163,6 +163,8 @@ class Facts:
         d, self.renamed = canonicalise(d)
         from .canon import canonicalise_fields
         d, self.renamed_fields = canonicalise_fields(d)
+        from .canon import tupleise_new_structs
+        d, self.tupleised = tupleise_new_structs(d)
         from .inline import inline_new_functions
         d, self.inlined = inline_new_functions(d)
         from .inline import desugar_combinators, thread_known_variants
